@@ -32,7 +32,7 @@ func (st *Stream) choose(n int, gen func() int) int {
 		} else {
 			v = st.rng.Intn(n)
 		}
-		st.Vals = append(st.Vals, uint32(v))
+		st.Vals = push(st.Vals, uint32(v))
 	}
 	st.pos++
 	return v
